@@ -195,6 +195,7 @@ func workerFn(raw json.RawMessage) json.RawMessage {
 type expectation struct {
 	terminals map[string]int    // run ID -> number of terminal messages owed
 	workDone  map[string]string // run ID -> expected output ID ("<error>" = step-fatal error), unique run IDs only
+	workTag   map[string]any    // run ID -> the "tag" of the in-process result's data
 	problems  int               // protocol problems among the frames the server reads
 	accepted  int
 	abnormal  int
@@ -231,7 +232,7 @@ func pokeDataOK(data any) (ok bool) {
 // expect reads the stream the way the statement describes the server: a start value, then frames until the first
 // one that cannot be decoded as a runtime message, a client-done, or the end of the input.
 func expect(sc Script) expectation {
-	ex := expectation{terminals: map[string]int{}, workDone: map[string]string{}}
+	ex := expectation{terminals: map[string]int{}, workDone: map[string]string{}, workTag: map[string]any{}}
 	stream := streamOf(sc)
 	dec := cbor.NewDecoder(bytes.NewReader(stream))
 	var start any
@@ -274,6 +275,7 @@ func expect(sc Script) expectation {
 			known[m.RunID] = true
 			// what the step gives in-process (gates open)
 			var outID string
+			var outData any
 			var cerr error
 			func() {
 				defer func() {
@@ -281,13 +283,16 @@ func expect(sc Script) expectation {
 						cerr = fmt.Errorf("panic: %v", e)
 					}
 				}()
-				outID, _, cerr = refPlugin.CallStep(context.Background(), m.RunID, ws.StepID, ws.Config)
+				outID, outData, cerr = refPlugin.CallStep(context.Background(), m.RunID, ws.StepID, ws.Config)
 			}()
 			if cerr != nil {
 				ex.workDone[m.RunID] = "<error>"
 				ex.abnormal++
 			} else {
 				ex.workDone[m.RunID] = outID
+				if d, ok := outData.(map[string]any); ok {
+					ex.workTag[m.RunID] = d["tag"]
+				}
 			}
 			if cfg, ok := ws.Config.(map[any]any); ok && cfg["gate"] != nil && sc.GatesLate {
 				ex.abnormal++
@@ -412,8 +417,8 @@ func assess(sc Script, body json.RawMessage) (string, string) {
 				return fmt.Sprintf("run %q must end in work-done with output %q, got %s\n%s", run, want, render([]atpx.OutMessage{m}), describe), "wrong_terminal"
 			}
 			data, _ := m.OutputData.(map[any]any)
-			if data == nil || data["tag"] != run {
-				return fmt.Sprintf("run %q: work-done carries %#v, want tag %q (the in-process result)\n%s", run, m.OutputData, run, describe), "wrong_data"
+			if data == nil || data["tag"] != ex.workTag[run] {
+				return fmt.Sprintf("run %q: work-done carries %#v, want tag %#v (the in-process result)\n%s", run, m.OutputData, ex.workTag[run], describe), "wrong_data"
 			}
 		}
 	}
